@@ -128,6 +128,18 @@ def se23_specs():
     return S
 
 
+def se23p_specs():
+    """SE_2(3) exponentials with the 5x5 matrix handed to from_Matrix exposed (C02: exp is the matrix exponential)"""
+    import cyecca.lie.group_se23 as g
+    S = []
+    for nm, G in (("SE23Quat", g.SE23Quat), ("SE23Mrp", g.SE23Mrp)):
+        def mk(G=G, nm=nm):
+            x = ca.SX.sym("x", 9)
+            return ca.Function(nm + "_exp", [x], [g.se23.elem(x).exp(G).param], ["x"], ["r"])
+        S.append(probed(nm + ".exp_p", mk, [(G, "from_Matrix", "arg", 0, "M")], cuts=("M",), only=("r", "M")))
+    return S
+
+
 def product_specs():
     from cyecca.lie.group_so2 import SO2
     from cyecca.lie.group_rn import R2, R3
@@ -416,6 +428,7 @@ MODULES = {
     "SO3": (so3_specs, ("Series",)),
     "SE3": (se3_specs, ("Series",)),
     "SE23": (se23_specs, ("Series",)),
+    "SE23P": (se23p_specs, ("Series",)),
     "Products": (product_specs, ("Series",)),
     "Alloc": (rdd2_alloc_specs, ("Series",)),
     "Bezier": (bezier_specs, ("Series",)),
